@@ -198,6 +198,9 @@ func (p *plugin) SetPodCFSQuota(proto protocol.HooksProtocol) error {
 	if cfsQuota > 0 && scaleRatio > 1.0 { // no support ratio in (0, 1) yet
 		originalCFSQuota := cfsQuota
 		cfsQuota = int64(math.Ceil(float64(originalCFSQuota) / scaleRatio))
+		if cfsQuota < sysutil.CFSQuotaMinValue { // the kernel rejects a cfs quota below the minimum
+			cfsQuota = sysutil.CFSQuotaMinValue
+		}
 		klog.V(6).Infof("plugin %s adjusts BE pod %s/%s cfs quota from %d to %d",
 			name, podCtx.Request.PodMeta.Namespace, podCtx.Request.PodMeta.Name, originalCFSQuota, cfsQuota)
 	}
@@ -339,6 +342,9 @@ func (p *plugin) SetContainerCFSQuota(proto protocol.HooksProtocol) error {
 	if cfsQuota > 0 && scaleRatio > 1.0 { // no support ratio in (0, 1) yet
 		originalCFSQuota := cfsQuota
 		cfsQuota = int64(math.Ceil(float64(originalCFSQuota) / scaleRatio))
+		if cfsQuota < sysutil.CFSQuotaMinValue { // the kernel rejects a cfs quota below the minimum
+			cfsQuota = sysutil.CFSQuotaMinValue
+		}
 		klog.V(6).Infof("plugin %s adjusts BE container %s/%s/%s cfs quota from %d to %d",
 			name, containerCtx.Request.PodMeta.Namespace, containerCtx.Request.PodMeta.Name,
 			containerCtx.Request.ContainerMeta.Name, originalCFSQuota, cfsQuota)
